@@ -503,7 +503,6 @@ impl C18 {
         if secs.len() != 3 {
             panic!("driver reply malformed: {reply}");
         }
-        let neg_in_string = text.contains("\"-");
         let check = |name: &str, m: &str, real: Option<Result<Vec<i64>, Vec<String>>>, out: &mut CaseOutcome| {
             let m = m.split_once('=').map(|x| x.1).unwrap_or("");
             let Some(real) = real else { return };
@@ -523,12 +522,7 @@ impl C18 {
                 out.tag(format!("model_{name}:ok"));
                 match real {
                     Ok(l) => {
-                        if join(&l) != ints.trim() && neg_in_string {
-                            // how `Scaled::parse_from_string` applies a minus sign to the
-                            // fraction is C06's subject (fixes/C06-h.patch changes it); a glue
-                            // ratio is never printed negative, so C18 does not depend on it
-                            out.tag(format!("model_{name}:skipped (negative number inside a string)"));
-                        } else if join(&l) != ints.trim() {
+                        if join(&l) != ints.trim() {
                             out.fail(
                                 Kind::ImplVsModel,
                                 stream_m,
